@@ -332,7 +332,8 @@ def trial_collections(ctx, w, trial, oracle_only=False):
                     elif not (min(temps) - 1e-9 <= repc.temperatureInC <= max(temps) + 1e-9):
                         ctx.fail("avg-component-temperature-convex", "averaged component temperature lies between the members' values",
                                  ccase, observed=repc.temperatureInC, expected=[min(temps), max(temps)])
-        # ---- burnup (all members enter, as coded)
+        # ---- burnup (candidates only since fix 5b02166; the model filters by the valid flag, the oracle clause below
+        #      reports `avg-burnup-includes-ineligible-members` if non-candidates ever enter again)
         hb = [[b.p.massHmBOL, b.p.percentBu] for b in order]
         blks = "[" + ",".join(blk_line(v, vol, wp, x) for (v, vol, wp), x in zip(win, hb)) + "]"
         if not oracle_only:
